@@ -353,3 +353,96 @@ _base_scn_ec = scenarios
 def scenarios():
     return _base_scn_ec() + [ecpoint_from_values()]
 
+
+
+def dispatcher(kind):
+    """MetaDispatchable.__call__ (Packet(octets)): header first, handler by (tag[, version]) from the registry, Opaque when none is
+    registered, the handler's parse gets the same buffer, and ANY exception of a parser leaves as PGPError.
+    kind: 'unversioned' (e.g. literal data) | 'versioned' (e.g. signature: generic class, then by version)"""
+    label = 'C08/MetaDispatchable.__call__[%s handler]' % kind
+    META, PK, T = 'pgpy.types.MetaDispatchable', 'pgpy.packet.types.Packet', 'pgpy.packet.types.'
+    GENERIC = 'pgpy.packet.packets.LiteralData' if kind == 'unversioned' else 'pgpy.packet.packets.Signature'
+    SPECIFIC = 'pgpy.packet.packets.SignatureV4'
+
+    def gen(repo):
+        r = scn.Run(repo, META, '__call__', label)
+        ex, st = r.ex, r.st
+        root = E.VClass(PK)
+        r.hook(META, '_roots', scn.const(E.VSet([root])))
+        reg = E.VObj('abstract:Registry', 'registry')
+        r.hook(META, '_registry', scn.const(reg))
+        known, known_ver = z3.Bool('tag_is_registered'), z3.Bool('tag_and_version_registered')
+
+        def contains(ex, st, o, a):
+            k = a[0].items
+            if len(k) == 3:
+                return [(st, E.VBool(known_ver))]
+            return [(st, E.VBool(known))]
+
+        def getitem(ex, st, o, a):
+            k = a[0].items
+            if len(k) == 2 and isinstance(k[1], E.VNone):
+                return [(st, E.VClass(T + 'Opaque'))]
+            return [(st, E.VClass(SPECIFIC if len(k) == 3 else GENERIC))]
+        r.hook('abstract:Registry', '__contains__', scn.method_hook(contains))
+        r.hook('abstract:Registry', '__getitem__', scn.method_hook(getitem))
+        OLD = z3.Const('OCTETS', B)
+        buf = ex.new_buf(st, OLD)
+        TAG, VER = z3.Ints('tag version')
+
+        def mkheader(name):
+            def h(ex, st, c, a):
+                st.ghost['headers'] = st.ghost.get('headers', ()) + (name,)
+                return [(st, E.VObj(c.qual, name + '%d' % len(st.ghost['headers'])))]
+            return h
+        r.hook(T + 'Header', '__call__', mkheader('header'))
+        r.hook(T + 'VersionedHeader', '__call__', mkheader('versioned-header'))
+
+        def hparse(ex, st, o, a):
+            st.ghost['events'] = st.ghost.get('events', ()) + (('header.parse', o.ref, a[0]),)
+            return [(st, E.VNone())]
+        r.hook(T + 'Header', 'parse', scn.method_hook(hparse))
+        r.hook(T + 'Header', 'typeid', scn.const(E.VInt(TAG)))
+        r.hook(T + 'VersionedHeader', 'version', scn.const(E.VInt(VER)))
+        for c in (GENERIC, SPECIFIC, T + 'Opaque', T + 'Packet', T + 'VersionedPacket'):
+            r.hook(c, '__init__', scn.mconst(E.VNone()))
+        fails = z3.Bool('the_handler_parse_raises')
+
+        def pparse(ex, st, o, a):
+            st.ghost['events'] = st.ghost.get('events', ()) + (('packet.parse', o, a[0]),)
+            bad = st.clone()
+            st.pc.append(z3.Not(fails))
+            bad.pc.append(fails)
+            return [(st, E.VNone()), (bad, E.Raise('IndexError', 0))]
+        for c in (GENERIC, SPECIFIC, T + 'Opaque'):
+            r.hook(c, 'parse', scn.method_hook(pparse))
+        for pi, (s, v) in enumerate(r.call(root, [buf])):
+            ev = s.ghost.get('events', ())
+            pp = [e for e in ev if e[0] == 'packet.parse']
+            if isinstance(v, E.Raise):
+                r.oblige(s, 'any-parser-exception-leaves-as-PGPError/p%d' % pi, z3.And(z3.BoolVal(v.exc.split(':')[0] == 'PGPError'), fails), v.where)
+                continue
+            r.oblige(s, 'returns-only-after-the-handler-parsed-without-exception/p%d' % pi, z3.And(z3.BoolVal(len(pp) == 1), z3.Not(fails)))
+            if len(pp) != 1:
+                continue
+            obj = pp[0][1]
+            r.oblige(s, 'returns-the-object-that-parsed-the-very-buffer-it-was-given/p%d' % pi, z3.BoolVal(v is obj and pp[0][2] is buf))
+            if kind == 'unversioned':
+                want = z3.If(known, z3.BoolVal(obj.cls == GENERIC), z3.BoolVal(obj.cls == T + 'Opaque'))
+            else:
+                want = z3.If(z3.And(known, known_ver), z3.BoolVal(obj.cls == SPECIFIC), z3.BoolVal(obj.cls == T + 'Opaque'))
+            r.oblige(s, 'handler:registered-class-for-the-tag%s,else-Opaque/p%d' % ('-and-version' if kind == 'versioned' else '', pi), want)
+            hp = [e for e in ev if e[0] == 'header.parse']
+            r.oblige(s, 'header-parsed-from-the-same-buffer-before-the-body/p%d' % pi,
+                     z3.BoolVal(len(hp) >= 1 and all(e[2] is buf for e in hp) and ev.index(hp[-1]) < ev.index(pp[0])))
+            hd = s.heap.get((obj.ref, 'header'))
+            r.oblige(s, 'the-object-carries-the-parsed-header/p%d' % pi, z3.BoolVal(isinstance(hd, E.VObj) and hd.ref == hp[-1][1] if hp else False))
+        return r.result()
+    return Scenario(label, META + '.__call__', gen, props=('C08',))
+
+
+_base_scn_d = scenarios
+
+
+def scenarios():
+    return _base_scn_d() + [dispatcher('unversioned'), dispatcher('versioned')]
